@@ -358,7 +358,11 @@ func RunProgram(rng *rand.Rand, dir string, cfg Config) (rep *Report) {
 				held = append(held, fd)
 			}
 		case k == 13:
-			if len(held) > 0 {
+			if len(held) > 0 && rng.Intn(2) == 0 {
+				// change the file through a held descriptor (it may have lost its name meanwhile)
+				rep.OpKinds["touch-through-held-descriptor"]++
+				s.TouchHeld(held[rng.Intn(len(held))], rng.Intn(2) == 0)
+			} else if len(held) > 0 {
 				rep.OpKinds["release"]++
 				j := rng.Intn(len(held))
 				s.Release(held[j])
